@@ -29,9 +29,9 @@ type fEnt struct {
 }
 
 func forCases(prop, tier string, seed uint64) []Case {
-	n := 5
+	n := 60
 	if tier == "thorough" {
-		n = 100
+		n = 700
 	}
 	var cases []Case
 	i := 0
